@@ -21,6 +21,14 @@ def main(argv):
         out = mod.replay(spec)
     else:
         out = mod.run_case(spec)
+    # open known findings are reported as such, exactly as in a search run
+    sigs = getattr(mod, "KNOWN", {})
+    for sig, desc in harness.load_known_findings(mod.ID):
+        pred = sigs.get(sig)
+        hit = [v for v in out.violations if pred and pred(spec, v)]
+        if hit:
+            print(f"KNOWN-FINDING: {desc}")
+            out.violations = [v for v in out.violations if v not in hit]
     if out.violations:
         for v in out.violations[:10]:
             print("  ", v)
